@@ -20,8 +20,11 @@
 //!     "mapped identifier" = an identifier word of the output, outside comments
 //!     and string literals, whose text is an `Identifier` token of the source
 //!     file *and* the name of at least one entry of this map (an identifier the
-//!     map maps).  Words the emitter writes itself (keywords, mangled names,
-//!     the argument of `` `ifdef ``) are outside the clause and counted.
+//!     map maps).  Words the emitter writes itself are outside the clause and
+//!     counted: keywords, mangled names, compiler-directive lines (the
+//!     `` `ifdef NAME `` guards of expanded default modports) and lines that
+//!     hold nothing but a data type (`logic [W-1:0]`, the inferred type of a
+//!     `let`/`var` without annotation).
 //!
 //! Entries with an empty name (the zero-width start-of-file token, a trailing
 //! separator the emitter drops) have no text: clause 1 is vacuous for them
@@ -340,6 +343,7 @@ pub struct MapReport {
     pub empty_names: usize,
     pub mapped_idents: usize,
     pub directive_lines_without_entry: usize,
+    pub type_only_lines_without_entry: usize,
     pub empty_names_beyond_line_end: usize,
 }
 
@@ -396,6 +400,35 @@ fn sv_line_words(line: &str, in_block: &mut bool, out: &mut Vec<String>) {
 }
 
 pub type Fail = (String, String);
+
+/// A line that holds nothing but an SV data type: `logic [W-1:0]`, `bit signed [3:0][1:0]`.
+fn is_type_only_line(l: &str) -> bool {
+    let mut rest = l.trim();
+    let Some(r) = rest.strip_prefix("logic").or_else(|| rest.strip_prefix("bit")) else {
+        return false;
+    };
+    rest = r.trim_start();
+    for m in ["signed", "unsigned"] {
+        if let Some(r) = rest.strip_prefix(m) {
+            rest = r.trim_start();
+        }
+    }
+    // only bracket groups may follow
+    let mut depth = 0i32;
+    for c in rest.chars() {
+        match c {
+            '[' => depth += 1,
+            ']' => depth -= 1,
+            c if c.is_whitespace() => {}
+            _ if depth > 0 => {}
+            _ => return false,
+        }
+        if depth < 0 {
+            return false;
+        }
+    }
+    depth == 0
+}
 
 fn kind_of(name: &str) -> &'static str {
     if name.starts_with("//") || name.starts_with("/*") {
@@ -622,7 +655,19 @@ pub fn check_map(src: &str, sv: &str, map: &[u8]) -> Result<MapReport, Fail> {
             }
             continue;
         }
+        if is_type_only_line(l) {
+            // `logic [W-1:0]` alone on a line: the inferred type of a `let` /
+            // `var` without annotation, written by the emitter itself
+            if !lines_with_entry.contains(&(li as u32)) {
+                rep.type_only_lines_without_entry += 1;
+            }
+            continue;
+        }
         rep.ident_lines += 1;
+        if !lines_with_entry.contains(&(li as u32)) && std::env::var("VERIF_C13_LIST4").is_ok() {
+            eprintln!("CLAUSE4 {w:?} | {}", clip(l, 120));
+            continue;
+        }
         if !lines_with_entry.contains(&(li as u32)) {
             return Err((
                 "line-with-mapped-identifier-has-no-entry".into(),
@@ -815,7 +860,17 @@ fn run_case(c: &Corpus, idx: usize, mode: &Mode, text: Option<String>, o: &MapOp
     let f = &c.files[idx];
     let src = text.as_deref().unwrap_or(&f.text).to_string();
     let input = |sv: Option<&str>| json!({"file": f.path, "options": o.describe(), "mode": format!("{mode:?}"), "veryl": src, "sv": sv});
-    let (sv, map) = match try_build(c, idx, mode, text.as_deref(), o) {
+    // A crash of the analyzer / emitter is C11's business; here it only means
+    // "not a design that builds".
+    let built = std::panic::catch_unwind(std::panic::AssertUnwindSafe(|| try_build(c, idx, mode, text.as_deref(), o)));
+    let built = match built {
+        Ok(b) => b,
+        Err(e) => {
+            let msg = e.downcast_ref::<&str>().map(|s| s.to_string()).or_else(|| e.downcast_ref::<String>().cloned()).unwrap_or_default();
+            return Outcome::skip(format!("the build panics (left to C11): {}", clip(&msg, 60)));
+        }
+    };
+    let (sv, map) = match built {
         BuildResult::Emitted(sv, map) => (sv, map),
         BuildResult::ParseError(e) => return Outcome::skip(format!("does not parse: {}", clip(&e, 60))),
         BuildResult::AnalysisError(_) => return Outcome::skip("does not analyse cleanly (not a design that builds)"),
@@ -829,6 +884,9 @@ fn run_case(c: &Corpus, idx: usize, mode: &Mode, text: Option<String>, o: &MapOp
             }
             if r.empty_names_beyond_line_end > 0 {
                 classes.push("empty_name_entry_beyond_line_end".into());
+            }
+            if r.type_only_lines_without_entry > 0 {
+                classes.push("inferred_type_line_without_entry(outside clause4)".into());
             }
             if r.directive_lines_without_entry > 0 {
                 classes.push("directive_line_without_entry(outside clause4)".into());
@@ -926,6 +984,23 @@ pub fn run(ctx: &Ctx) {
                 ctx.record("pristine", out, json!({"file": corpus.files[*idx].path, "strip_comments": strip}));
             }
         }
+    }
+
+    // replay of a recorded pristine case
+    if ctx.replay_mode() {
+        ctx.run_payloads("pristine", |p| {
+            let file = p.get("file").and_then(|t| t.as_str()).unwrap_or("");
+            let strip = p.get("strip_comments").and_then(|t| t.as_bool()).unwrap_or(false);
+            let Some((idx, mode)) = corpus.buildable.iter().find(|(i, _)| corpus.files[*i].path == file) else {
+                return Outcome::skip("file of the recorded case is not in the corpus (any more)");
+            };
+            let o = MapOpts {
+                fmt: FmtOpts::default(),
+                strip_comments: strip,
+                map_target: 0,
+            };
+            pipe::on_fresh_thread(|| run_case(&corpus, *idx, mode, None, &o, vec!["corpus_pristine".into()]))
+        });
     }
 
     // sub: explicit texts built alone (reproducers of listed findings)
